@@ -1,5 +1,20 @@
 """C05 — GGUF written by Ollama decodes to the same metadata, tensors and tensor bytes."""
 from vlib import core
+from vlib.registry import COMMON_NOTE
+
+REGISTRATION = {
+    "engine": "lean-gguf",
+    "technique": "Lean 4 proof over byte-level codec model + byte-exact differential correspondence",
+    "category": "proof",
+    "text": "Kernel-checked theorems over a byte-level Lean model of WriteGGUF/Decode (all tensor counts, kinds, "
+            "sizes, alignments): declared offsets are aligned and the tensor's bytes are found there; decoder "
+            "round trip. Model = code is checked byte-for-byte on thousands of generated files per run, and the "
+            "property predicate is evaluated on the real decoder's view of the real writer's file.",
+    "design_ref": "DESIGN.md §5 C05",
+    "note": COMMON_NOTE + "Modelled, not verified: the tensor sort (any permutation is covered by the theorem; "
+            "the harness feeds the order the real sort produced), Tensor.WriterTo writes exactly Size() bytes "
+            "(WfT), file-system writes are faithful.",
+}
 
 MODULES = ["OllamaVerif.Properties.C05", "OllamaVerif.Tie.C05"]
 THEOREMS = [
